@@ -5,6 +5,7 @@ import (
 	"fmt"
 	"hash/fnv"
 	"os"
+	"reflect"
 	"strconv"
 	"testing"
 
@@ -31,6 +32,20 @@ func ShardOf(key string, shards int) int {
 	x *= 0xff51afd7ed558ccd
 	x ^= x >> 33
 	return int(x % uint64(shards))
+}
+
+// storeIdentity: an identity of the context's (cache) multistore, 0 when it cannot be determined.
+func storeIdentity(ctx sdk.Context) (id uintptr) {
+	defer func() {
+		if recover() != nil {
+			id = 0
+		}
+	}()
+	v := reflect.ValueOf(ctx.MultiStore())
+	for v.Kind() == reflect.Interface || v.Kind() == reflect.Pointer {
+		v = v.Elem()
+	}
+	return v.FieldByName("stores").Pointer()
 }
 
 // RunReplaySharded is graph.RunReplay for star-shaped graphs (few states, a large operation alphabet):
@@ -68,15 +83,15 @@ func RunReplaySharded(t *testing.T, ad graph.Adapter, root sdk.Context, shardKey
 	// every executed real transition is also recorded as a one-step behaviour (initial state = the projected
 	// pre-state), so that TLC evaluates the property formulas on conforming transitions too
 	capN, nrec := envInt("VERIF_EDGETRACES", 6000), 0
-	var lastMS any
+	var lastMS uintptr
 	var lastPre any
 	after := func(post, pre sdk.Context, op graph.Op, res string) error {
 		if out == nil || nrec >= capN {
 			return nil
 		}
 		nrec++
-		if ms := any(pre.MultiStore()); ms != lastMS { // all operations of a state start from the same branch
-			lastMS, lastPre = ms, ad.Project(pre)
+		if id := storeIdentity(pre); id == 0 || id != lastMS { // all operations of a state start from the same branch
+			lastMS, lastPre = id, ad.Project(pre)
 		}
 		o := graph.Op{}
 		for k, v := range op {
